@@ -20,6 +20,7 @@ from sim.props.common import (
     base_verdict,
     clone,
     fail,
+    is_exception,
     liveness_verdict,
     shrink_ast,
     strip_msg,
@@ -210,7 +211,7 @@ def execute(scenario):
             sim.count_fault("F4_unknown_package")
             verdict["faults"] = dict(sim.fault_counts)
             verdict["nontrivial"] = verdict["nontrivial"] or n_lookups >= 2
-            if outcome.get("exc") != "NotImplementedError":
+            if not is_exception(outcome, "NotImplementedError"):
                 fail(
                     verdict,
                     "unknown-package-not-reported",
